@@ -195,6 +195,22 @@ numbers.Real.register(Sym)
 _FLOAT_DTYPES = (float, np.float64, np.double, "float", "float64", "double", "d", "f8")
 
 
+class _ShimFloat64Meta(type):
+    dtype = property(lambda cls: np.dtype(object))
+
+    def __call__(cls, x=0.0):
+        if isinstance(x, Sym):
+            return x
+        return np.float64(x)
+
+    def __instancecheck__(cls, inst):
+        return isinstance(inst, (np.float64, Sym))
+
+
+class _ShimFloat64(metaclass=_ShimFloat64Meta):
+    pass
+
+
 class NpShim:
     def __init__(self, tracer):
         object.__setattr__(self, "_t", tracer)
@@ -214,7 +230,7 @@ class NpShim:
     def _is_float_dtype(self, dtype):
         if dtype is None:
             return False
-        if getattr(dtype, "__func__", None) is NpShim.float64:
+        if dtype is _ShimFloat64:
             return True  # `np.float64` read through this shim by the traced module (dtype=np.float64)
         try:
             return np.dtype(dtype).kind == "f"
@@ -321,10 +337,19 @@ class NpShim:
 
     deg2rad = radians
 
-    def float64(self, x):
-        if isinstance(x, Sym):
-            return x
-        return np.float64(x)
+    # `np.float64` as the traced module sees it: callable like the scalar type (a symbol passes through), and usable as a
+    # dtype — it stands for "array of (symbolic) reals", i.e. dtype object, so that `x.astype(np.float64)`,
+    # `np.asarray(x, dtype=np.float64)` and `x.dtype == np.float64` behave for symbolic arrays as they do for float64 arrays.
+    float64 = _ShimFloat64
+    double = _ShimFloat64
+
+    def finfo(self, dtype=float):
+        return np.finfo(np.float64 if dtype is _ShimFloat64 else dtype)
+
+    def issubdtype(self, a, b):
+        a = np.float64 if a is _ShimFloat64 else a
+        b = np.float64 if b is _ShimFloat64 else b
+        return np.issubdtype(a, b)
 
     # np.frexp / np.ldexp (power-of-two scaling). The exponent is concrete (decided on the concrete value and
     # logged as the two comparisons 2^(e-1) <= |x| < 2^e, so it is part of the path); ldexp by a concrete integer
